@@ -3,8 +3,8 @@ package rules
 import (
 	"fmt"
 	"go/ast"
-	"go/token"
 	"go/types"
+	"regexp"
 	"strings"
 
 	"ledgerlint/internal/astx"
@@ -58,130 +58,6 @@ func checkC21(c *core.Ctx) {
 
 func nospace(s string) string { return strings.ReplaceAll(s, " ", "") }
 
-func ruleColumnWindow(c *core.Ctx) {
-	d := fn(c, pkgCommon, "columnPaginator", "Paginate")
-	if d == nil {
-		return
-	}
-	info := d.Pkg.TypesInfo
-	key := declKey(d)
-	// look-ahead
-	okLimit := false
-	for _, call := range callsTo(info, d.Decl.Body, named("Limit")) {
-		if len(call.Args) == 1 && nospace(types.ExprString(call.Args[0])) == "int(pageSize)+1" {
-			okLimit = len(factsNoErr(factStrings(info, d.Decl.Body, call.Pos()))) == 0
-		}
-	}
-	c.Check(okLimit, "PAGE/column-window", key+":lookahead", pos(c, d.Decl), "Limit(pageSize+1), unconditional", "the column paginator does not fetch exactly one row more than the page size: the end of the listing cannot be told from a full page (pages are dropped or an extra empty page appears)")
-	// order
-	okOrder := false
-	var orderVar types.Object
-	for _, call := range callsTo(info, d.Decl.Body, named("Order")) {
-		if len(call.Args) != 1 {
-			continue
-		}
-		arg := call.Args[0]
-		if id, ok := arg.(*ast.Ident); ok {
-			// orderExpression := Sprintf(...)
-			ast.Inspect(d.Decl.Body, func(n ast.Node) bool {
-				if as, ok := n.(*ast.AssignStmt); ok && len(as.Lhs) == 1 && len(as.Rhs) == 1 {
-					if l, ok := as.Lhs[0].(*ast.Ident); ok && info.ObjectOf(l) == info.ObjectOf(id) {
-						arg = as.Rhs[0]
-					}
-				}
-				return true
-			})
-		}
-		if f, args, ok := sprintfShape(info, arg); ok && f == "%s %s" && len(args) == 2 && args[0] == "paginationColumn" {
-			ast.Inspect(arg, func(n ast.Node) bool {
-				if id, ok := n.(*ast.Ident); ok && id.Name == args[1] {
-					orderVar = info.ObjectOf(id)
-				}
-				return true
-			})
-		}
-	}
-	if orderVar != nil {
-		// order := originalOrder; if o.query.Reverse { order = order.Reverse() }
-		init, rev := false, false
-		ast.Inspect(d.Decl.Body, func(n ast.Node) bool {
-			as, ok := n.(*ast.AssignStmt)
-			if !ok || len(as.Lhs) != 1 || len(as.Rhs) != 1 {
-				return true
-			}
-			l, ok := as.Lhs[0].(*ast.Ident)
-			if !ok || info.ObjectOf(l) != orderVar {
-				return true
-			}
-			r := types.ExprString(as.Rhs[0])
-			fs := factsNoErr(factStrings(info, d.Decl.Body, as.Pos()))
-			switch {
-			case r == "originalOrder" && len(fs) == 0:
-				init = true
-			case r == l.Name+".Reverse()" && len(fs) == 1 && fs[0] == "+o.query.Reverse":
-				rev = true
-			default:
-				init = false
-			}
-			return true
-		})
-		okOrder = init && rev
-	}
-	c.Check(okOrder, "PAGE/column-window", key+":order", pos(c, d.Decl), "ORDER BY column, direction reversed iff Reverse", "the column paginator does not order by the pagination column in the requested direction, reversed exactly when a previous cursor is followed")
-	// the four bounds
-	want := map[string]string{"-rev,asc": ">=", "-rev,desc": "<=", "+rev,asc": "<", "+rev,desc": ">"}
-	got := map[string]string{}
-	for _, call := range callsTo(info, d.Decl.Body, named("Where")) {
-		if len(call.Args) != 2 {
-			continue
-		}
-		f, args, ok := sprintfShape(info, call.Args[0])
-		if !ok || len(args) != 1 || args[0] != "paginationColumn" || types.ExprString(call.Args[1]) != "paginationID" {
-			got["?"+c.Prog().Rel(call.Pos())] = "unrecognised bound"
-			continue
-		}
-		op := strings.TrimSpace(strings.TrimSuffix(strings.TrimPrefix(f, "%s"), "?"))
-		fs := factStrings(info, d.Decl.Body, call.Pos())
-		if !hasFact(fs, "o.query.PaginationID != nil", true) {
-			got["?"+c.Prog().Rel(call.Pos())] = "bound applied without a pagination id"
-			continue
-		}
-		k := ""
-		switch {
-		case hasFact(fs, "o.query.Reverse", true):
-			k = "+rev"
-		case hasFact(fs, "o.query.Reverse", false):
-			k = "-rev"
-		}
-		switch {
-		case hasFact(fs, "originalOrder == paginate.OrderAsc", true):
-			k += ",asc"
-		case hasFact(fs, "originalOrder == paginate.OrderDesc", true):
-			k += ",desc"
-		}
-		got[k] = op
-	}
-	for k, op := range want {
-		c.Check(got[k] == op, "PAGE/column-window", key+":bound:"+k, pos(c, d.Decl), k+" → "+op, fmt.Sprintf("for (%s) the column paginator bounds the window with %q instead of %q: following cursors skips or repeats the boundary row", k, got[k], op))
-	}
-	for k, v := range got {
-		if _, ok := want[k]; !ok {
-			c.Fail("PAGE/column-window", key+":bound:"+k, pos(c, d.Decl), "unexpected window bound ("+v+")")
-		}
-	}
-	// paginationID comes from the query's PaginationID
-	okID := false
-	ast.Inspect(d.Decl.Body, func(n ast.Node) bool {
-		if as, ok := n.(*ast.AssignStmt); ok && len(as.Lhs) == 1 && len(as.Rhs) == 1 && types.ExprString(as.Lhs[0]) == "paginationID" {
-			if call, ok := as.Rhs[0].(*ast.CallExpr); ok && len(call.Args) == 2 && types.ExprString(call.Args[1]) == "o.query.PaginationID" {
-				okID = true
-			}
-		}
-		return true
-	})
-	c.Check(okID, "PAGE/column-window", key+":bound-value", pos(c, d.Decl), "bound = the cursor's pagination id", "the window bound is not the pagination id carried by the cursor")
-}
-
 func factsNoErr(fs []string) []string {
 	var out []string
 	for _, f := range fs {
@@ -193,6 +69,118 @@ func factsNoErr(fs []string) []string {
 	return out
 }
 
+// limitOfPageSize: a LIMIT argument that is visibly derived from a page size (`int(…)`, optionally ±1).
+var limitOfPageSize = regexp.MustCompile(`^int\(.+\)([+-]1)?$`)
+
+var boundFormat = regexp.MustCompile(`^%s\s*(>=|<=|<|>|=)\s*\?$`)
+
+// dirFacts reduces the branch facts at a site to (reverse?, order) when they can be read off.
+func dirFacts(fs []string) (rev string, ord string) {
+	for _, f := range fs {
+		body := f[1:]
+		pos := f[0] == '+'
+		switch {
+		case strings.HasSuffix(body, ".Reverse") || body == "reverse" || strings.HasSuffix(body, ".Reverse()"):
+			if pos {
+				rev = "+rev"
+			} else {
+				rev = "-rev"
+			}
+		case strings.Contains(body, "OrderAsc") && strings.Contains(body, "=="):
+			if pos {
+				ord = "asc"
+			}
+		case strings.Contains(body, "OrderDesc") && strings.Contains(body, "=="):
+			if pos {
+				ord = "desc"
+			}
+		}
+	}
+	return
+}
+
+func ruleColumnWindow(c *core.Ctx) {
+	d := fn(c, pkgCommon, "columnPaginator", "Paginate")
+	if d == nil {
+		return
+	}
+	key := declKey(d)
+	scope := fnScope(c, d, 2)
+	// ---- the four bounds -------------------------------------------------------------------
+	want := map[string]string{"-rev,asc": ">=", "-rev,desc": "<=", "+rev,asc": "<", "+rev,desc": ">"}
+	got := map[string]string{}
+	var stray []string
+	recognised := false
+	for _, sc := range scopeCalls(scope, named("Where")) {
+		info := sc.D.Pkg.TypesInfo
+		call := sc.Call
+		if len(call.Args) != 2 {
+			continue
+		}
+		f, args, ok := sprintfShape(info, resolveLocal(info, sc.D.Decl.Body, call.Args[0]))
+		if !ok || len(args) != 1 {
+			continue
+		}
+		m := boundFormat.FindStringSubmatch(f)
+		if m == nil {
+			continue
+		}
+		rev, ord := dirFacts(factStrings(info, sc.D.Decl.Body, call.Pos()))
+		if rev == "" || ord == "" {
+			continue // the direction is decided elsewhere (helper, table…): not a shape we can read
+		}
+		recognised = true
+		k := rev + "," + ord
+		if prev, dup := got[k]; dup && prev != m[1] {
+			stray = append(stray, k+" twice")
+		}
+		got[k] = m[1]
+	}
+	for k, op := range want {
+		okDetail := k + " → " + op
+		c.Shape(recognised, got[k] == op, "PAGE/column-window", key+":bound:"+k, pos(c, d.Decl), okDetail, fmt.Sprintf("for (%s) the column paginator bounds the window with %q instead of %q: following cursors skips or repeats the boundary row", k, got[k], op))
+	}
+	if recognised && len(stray) > 0 {
+		c.Fail("PAGE/column-window", key+":bound:conflict", pos(c, d.Decl), "conflicting window bounds: "+strings.Join(stray, ", "))
+	}
+	// ---- look-ahead row ----------------------------------------------------------------------
+	limits := scopeCalls(scope, named("Limit"))
+	recL, okL := false, false
+	for _, sc := range limits {
+		info := sc.D.Pkg.TypesInfo
+		if len(sc.Call.Args) != 1 {
+			continue
+		}
+		arg := nospace(types.ExprString(resolveLocal(info, sc.D.Decl.Body, sc.Call.Args[0])))
+		if _, ok := matchPat(arg, "int($p)+1"); ok {
+			recL, okL = true, true
+		} else if limitOfPageSize.MatchString(arg) {
+			recL = true
+		}
+	}
+	c.Shape(recL, okL, "PAGE/column-window", key+":lookahead", pos(c, d.Decl), "Limit(pageSize+1)", "the column paginator does not fetch exactly one row more than the page size: the end of the listing cannot be told from a full page (pages are dropped or an extra empty page appears)")
+	// ---- order follows Reverse -----------------------------------------------------------------
+	recO, okO := false, false
+	for _, dd := range scope {
+		info := dd.Pkg.TypesInfo
+		ast.Inspect(dd.Decl.Body, func(n ast.Node) bool {
+			as, ok := n.(*ast.AssignStmt)
+			if !ok || len(as.Lhs) != 1 || len(as.Rhs) != 1 {
+				return true
+			}
+			if b, ok := matchPat(types.ExprString(as.Rhs[0]), "$o.Reverse()"); ok && b["o"] == types.ExprString(as.Lhs[0]) {
+				recO = true
+				rev, _ := dirFacts(factStrings(info, dd.Decl.Body, as.Pos()))
+				if rev == "+rev" {
+					okO = true
+				}
+			}
+			return true
+		})
+	}
+	c.Shape(recO, okO, "PAGE/column-window", key+":order", pos(c, d.Decl), "direction reversed iff Reverse", "the column paginator reverses the ORDER BY direction under another condition than `Reverse`: a previous cursor walks in the wrong direction")
+}
+
 func ruleColumnCursor(c *core.Ctx) {
 	d := fn(c, pkgCommon, "columnPaginator", "BuildCursor")
 	if d == nil {
@@ -200,74 +188,109 @@ func ruleColumnCursor(c *core.Ctx) {
 	}
 	info := d.Pkg.TypesInfo
 	key := declKey(d)
-	okMore, okTrim, okRev := false, false, false
-	okNext, okPrev, okRevNext := false, false, false
+	if len(d.Decl.Type.Params.List) != 1 || len(d.Decl.Type.Params.List[0].Names) != 1 {
+		c.Unrecognised("PAGE/column-cursor", key+":signature", pos(c, d.Decl), "BuildCursor(rows) signature changed")
+		return
+	}
+	ret := d.Decl.Type.Params.List[0].Names[0].Name
+	// skeleton: hasMore := len(ret) > int(pageSize)
+	var more string
+	moreOK := false
 	ast.Inspect(d.Decl.Body, func(n ast.Node) bool {
 		as, ok := n.(*ast.AssignStmt)
-		if !ok || len(as.Lhs) < 1 || len(as.Rhs) < 1 {
+		if !ok || len(as.Lhs) != 1 || len(as.Rhs) != 1 {
 			return true
 		}
-		l, r := types.ExprString(as.Lhs[0]), nospace(types.ExprString(as.Rhs[0]))
-		fs := factsNoErr(factStrings(info, d.Decl.Body, as.Pos()))
-		switch {
-		case l == "hasMore":
-			okMore = r == "len(ret)>int(pageSize)" && len(fs) == 0
-		case l == "ret" && r == "ret[:len(ret)-1]":
-			okTrim = len(fs) == 1 && fs[0] == "+hasMore"
-		case l == "cp.PaginationID":
-			switch r {
-			case "paginationIDs[len(paginationIDs)-1]":
-				okNext = hasFact(fs, "hasMore", true) && hasFact(fs, "o.query.Reverse", false)
-			case "paginationIDs[len(paginationIDs)-2]":
-				okPrev = hasFact(fs, "hasMore", true) && hasFact(fs, "o.query.Reverse", true)
-			default:
-				okNext, okPrev = false, false
-			}
-		case l == "cp.Reverse" && r == "false":
-			okRevNext = hasFact(fs, "o.query.Reverse", true)
-		}
-		if len(as.Lhs) == 2 && len(as.Rhs) == 2 {
-			// swap inside the reverse loop
-			if nospace(types.ExprString(as.Lhs[0])) == "ret[i]" && nospace(types.ExprString(as.Lhs[1])) == "ret[len(ret)-i-1]" && nospace(types.ExprString(as.Rhs[0])) == "ret[len(ret)-i-1]" && nospace(types.ExprString(as.Rhs[1])) == "ret[i]" {
-				okRev = hasFact(fs, "o.query.Reverse", true)
-			}
+		r := nospace(types.ExprString(as.Rhs[0]))
+		if b, ok := matchPat(r, "len("+ret+")>int($p)"); ok && b["p"] != "" {
+			more, moreOK = types.ExprString(as.Lhs[0]), true
+		} else if _, ok := matchPat(r, "len("+ret+")>=int($p)"); ok {
+			more = types.ExprString(as.Lhs[0])
 		}
 		return true
 	})
-	c.Check(okMore && okTrim, "PAGE/column-cursor", key+":lookahead-dropped", pos(c, d.Decl), "hasMore = len(ret) > pageSize; look-ahead row dropped exactly then", "BuildCursor does not report more rows exactly when more than pageSize rows came back, or does not drop the look-ahead row: a row is returned twice (on this page and as the first of the next) or never")
-	c.Check(okNext, "PAGE/column-cursor", key+":next-starts-at-lookahead", pos(c, d.Decl), "next.PaginationID = id of the look-ahead row", "the next cursor does not start at the id of the look-ahead row (inclusive bound): the following page skips or repeats a row")
-	c.Check(okPrev && okRevNext, "PAGE/column-cursor", key+":reverse-cursors", pos(c, d.Decl), "on a reversed page: previous = row before the look-ahead, next = the same query un-reversed", "on a page reached through a previous cursor the cursors are not (previous: id before the look-ahead row, next: same query forwards)")
-	c.Check(okRev, "PAGE/column-cursor", key+":reverse-reordered", pos(c, d.Decl), "reversed page re-reversed", "a page fetched in reverse direction is not put back in the requested order")
-	// ids collected for every fetched row, in order, before trimming
-	okIDs := false
+	skeleton := more != ""
+	c.Shape(skeleton, moreOK, "PAGE/column-cursor", key+":has-more", pos(c, d.Decl), "more rows ⇔ len(rows) > pageSize", "BuildCursor does not report more rows exactly when more than pageSize rows came back")
+	// trimming under +more
+	trim := false
+	var idsVar string
+	nextOK, prevOK, nextSeen, prevSeen := false, false, false, false
+	reRev := false
 	ast.Inspect(d.Decl.Body, func(n ast.Node) bool {
-		r, ok := n.(*ast.RangeStmt)
-		if !ok || types.ExprString(r.X) != "ret" {
-			return true
-		}
-		for _, st := range r.Body.List {
-			if as, ok := st.(*ast.AssignStmt); ok && len(as.Lhs) == 1 && types.ExprString(as.Lhs[0]) == "paginationIDs" && strings.HasPrefix(nospace(types.ExprString(as.Rhs[0])), "append(paginationIDs,") {
-				okIDs = true
+		switch x := n.(type) {
+		case *ast.AssignStmt:
+			if len(x.Lhs) == 1 && len(x.Rhs) == 1 {
+				l, r := nospace(types.ExprString(x.Lhs[0])), nospace(types.ExprString(x.Rhs[0]))
+				fs := factStrings(info, d.Decl.Body, x.Pos())
+				if l == ret && r == ret+"[:len("+ret+")-1]" && hasFact(fs, more, true) {
+					trim = true
+				}
+				if b, ok := matchPat(r, "append($v,$x)"); ok && b["v"] == l {
+					// inside a range over ret
+					ast.Inspect(d.Decl.Body, func(m ast.Node) bool {
+						if rg, ok := m.(*ast.RangeStmt); ok && types.ExprString(rg.X) == ret && rg.Body.Pos() <= x.Pos() && x.End() <= rg.Body.End() {
+							idsVar = l
+						}
+						return true
+					})
+				}
+				if strings.HasSuffix(l, ".PaginationID") && idsVar != "" {
+					rev, _ := dirFacts(fs)
+					if r == idsVar+"[len("+idsVar+")-1]" {
+						nextSeen = true
+						if hasFact(fs, more, true) && rev == "-rev" {
+							nextOK = true
+						}
+						if rev == "+rev" {
+							prevSeen = true // wrong index for the previous cursor
+						}
+					}
+					if r == idsVar+"[len("+idsVar+")-2]" {
+						prevSeen = true
+						if hasFact(fs, more, true) && rev == "+rev" {
+							prevOK = true
+						}
+						if rev == "-rev" {
+							nextSeen = true // wrong index for the next cursor
+						}
+					}
+				}
+			}
+			if len(x.Lhs) == 2 && len(x.Rhs) == 2 {
+				if _, ok := matchPat(types.ExprString(x.Lhs[0])+","+types.ExprString(x.Lhs[1])+"="+types.ExprString(x.Rhs[0])+","+types.ExprString(x.Rhs[1]), ret+"[$i],"+ret+"[len("+ret+")-$i-1]="+ret+"[len("+ret+")-$i-1],"+ret+"[$i]"); ok {
+					if rev, _ := dirFacts(factStrings(info, d.Decl.Body, x.Pos())); rev == "+rev" {
+						reRev = true
+					}
+				}
+			}
+		case *ast.CallExpr:
+			if f := astx.Callee(info, x); f != nil && f.Pkg() != nil && f.Pkg().Path() == "slices" && f.Name() == "Reverse" && len(x.Args) == 1 && types.ExprString(x.Args[0]) == ret {
+				if rev, _ := dirFacts(factStrings(info, d.Decl.Body, x.Pos())); rev == "+rev" {
+					reRev = true
+				}
 			}
 		}
 		return true
 	})
-	c.Check(okIDs, "PAGE/column-cursor", key+":ids-of-all-rows", pos(c, d.Decl), "one pagination id per fetched row, in order", "pagination ids are not collected for every fetched row in order")
-	// the cursor carries ret, HasMore = next != nil
-	okCur := false
+	c.Shape(skeleton, trim, "PAGE/column-cursor", key+":lookahead-dropped", pos(c, d.Decl), "look-ahead row dropped exactly when more rows exist", "BuildCursor does not drop the look-ahead row when more rows exist: a row is returned twice (on this page and as the first of the next) or never")
+	c.Shape(skeleton && idsVar != "" && nextSeen, nextOK, "PAGE/column-cursor", key+":next-starts-at-lookahead", pos(c, d.Decl), "next.PaginationID = id of the look-ahead row", "the next cursor does not start at the id of the look-ahead row (inclusive bound): the following page skips or repeats a row")
+	c.Shape(skeleton && idsVar != "" && prevSeen, prevOK, "PAGE/column-cursor", key+":previous-on-reverse", pos(c, d.Decl), "on a reversed page previous.PaginationID = id before the look-ahead row", "on a page reached through a previous cursor the previous cursor is not built from the row before the look-ahead row: following previous twice skips or repeats a row")
+	c.Shape(skeleton, reRev, "PAGE/column-cursor", key+":reverse-reordered", pos(c, d.Decl), "reversed page re-reversed (swap loop or slices.Reverse)", "a page fetched in reverse direction is not put back in the requested order")
+	// cursor literal
+	var lit *ast.CompositeLit
 	ast.Inspect(d.Decl.Body, func(n ast.Node) bool {
-		cl, ok := n.(*ast.CompositeLit)
-		if !ok {
-			return true
-		}
-		dv, hv := fieldOfCompositeLit(cl, "Data"), fieldOfCompositeLit(cl, "HasMore")
-		nv, pv := fieldOfCompositeLit(cl, "Next"), fieldOfCompositeLit(cl, "Previous")
-		if dv != nil && hv != nil && nv != nil && pv != nil {
-			okCur = types.ExprString(dv) == "ret" && nospace(types.ExprString(hv)) == "next!=nil" && strings.HasSuffix(types.ExprString(nv), "(next)") && strings.HasSuffix(types.ExprString(pv), "(previous)")
+		if cl, ok := n.(*ast.CompositeLit); ok && fieldOfCompositeLit(cl, "Data") != nil && fieldOfCompositeLit(cl, "HasMore") != nil {
+			lit = cl
 		}
 		return true
 	})
-	c.Check(okCur, "PAGE/column-cursor", key+":cursor-fields", pos(c, d.Decl), "Data = ret, HasMore = next != nil, Next/Previous encoded from next/previous", "the returned cursor does not carry the trimmed page with the next/previous queries in their own slots")
+	if lit != nil {
+		dv, hv := types.ExprString(fieldOfCompositeLit(lit, "Data")), nospace(types.ExprString(fieldOfCompositeLit(lit, "HasMore")))
+		_, okH := matchPat(hv, "$n!=nil")
+		c.Check(dv == ret && okH, "PAGE/column-cursor", key+":cursor-fields", pos(c, lit), "Data = rows, HasMore = next != nil", "the returned cursor does not carry the trimmed page, or HasMore is not `next cursor exists`")
+	} else {
+		c.Unrecognised("PAGE/column-cursor", key+":cursor-fields", pos(c, d.Decl), "cursor literal not found")
+	}
 }
 
 func ruleOffsetPaginator(c *core.Ctx) {
@@ -276,83 +299,98 @@ func ruleOffsetPaginator(c *core.Ctx) {
 	if d == nil || b == nil {
 		return
 	}
-	info := d.Pkg.TypesInfo
 	key := declKey(d)
-	okLimit, okOffset, okOrder := false, false, false
-	for _, call := range callsTo(info, d.Decl.Body, named("Limit")) {
-		if len(call.Args) == 1 && nospace(types.ExprString(call.Args[0])) == "int(o.query.PageSize)+1" {
-			okLimit = true
+	scope := fnScope(c, d, 1)
+	recL, okL := false, false
+	for _, sc := range scopeCalls(scope, named("Limit")) {
+		if len(sc.Call.Args) != 1 {
+			continue
+		}
+		arg := nospace(types.ExprString(resolveLocal(sc.D.Pkg.TypesInfo, sc.D.Decl.Body, sc.Call.Args[0])))
+		if _, ok := matchPat(arg, "int($p)+1"); ok {
+			recL, okL = true, true
+		} else if limitOfPageSize.MatchString(arg) {
+			// int(<something else than the page size itself>) ± 1: the window is not the page size
+			// BuildCursor compares the row count with
+			recL = true
 		}
 	}
-	for _, call := range callsTo(info, d.Decl.Body, named("Offset")) {
-		if len(call.Args) == 1 && nospace(types.ExprString(call.Args[0])) == "int(o.query.Offset)" {
-			fs := factsNoErr(factStrings(info, d.Decl.Body, call.Pos()))
-			okOffset = true
-			for _, f := range fs {
-				if !(strings.Contains(f, "o.query.Offset > 0") && f[0] == '+') && !(strings.Contains(f, "math.MaxInt32") && f[0] == '-') {
-					okOffset = false
-				}
-			}
+	c.Shape(recL, okL, "PAGE/offset", key+":lookahead", pos(c, d.Decl), "Limit(pageSize+1)", "the offset paginator does not fetch one row more than the page size")
+	recO, okO := false, false
+	for _, sc := range scopeCalls(scope, named("Offset")) {
+		if len(sc.Call.Args) != 1 {
+			continue
+		}
+		recO = true
+		arg := nospace(types.ExprString(resolveLocal(sc.D.Pkg.TypesInfo, sc.D.Decl.Body, sc.Call.Args[0])))
+		if bnd, ok := matchPat(arg, "int($o)"); ok && strings.HasSuffix(bnd["o"], "Offset") {
+			okO = true
 		}
 	}
-	for _, call := range callsTo(info, d.Decl.Body, named("Order")) {
-		if len(call.Args) == 1 {
-			arg := call.Args[0]
-			if id, ok := arg.(*ast.Ident); ok {
-				ast.Inspect(d.Decl.Body, func(n ast.Node) bool {
-					if as, ok := n.(*ast.AssignStmt); ok && len(as.Lhs) == 1 && len(as.Rhs) == 1 {
-						if l, ok := as.Lhs[0].(*ast.Ident); ok && info.ObjectOf(l) == info.ObjectOf(id) {
-							arg = as.Rhs[0]
-						}
-					}
-					return true
-				})
-			}
-			if f, args, ok := sprintfShape(info, arg); ok && f == "%s %s" && len(args) == 2 && args[0] == "paginationColumn" && args[1] == "originalOrder" {
-				okOrder = true
-			}
-		}
-	}
-	c.Check(okLimit, "PAGE/offset", key+":lookahead", pos(c, d.Decl), "Limit(pageSize+1)", "the offset paginator does not fetch one row more than the page size")
-	c.Check(okOffset, "PAGE/offset", key+":offset", pos(c, d.Decl), "Offset(query.Offset) when positive", "the offset paginator does not skip the cursor's offset")
-	c.Check(okOrder, "PAGE/offset", key+":order", pos(c, d.Decl), "ORDER BY column direction", "the offset paginator does not order by the requested column and direction")
+	c.Shape(recO, okO, "PAGE/offset", key+":offset", pos(c, d.Decl), "Offset(query.Offset)", "the offset paginator does not skip the cursor's offset")
+	// BuildCursor
 	bi := b.Pkg.TypesInfo
 	bkey := declKey(b)
-	okNext, okTrim, okPrev := false, false, false
+	if len(b.Decl.Type.Params.List) != 1 || len(b.Decl.Type.Params.List[0].Names) != 1 {
+		c.Unrecognised("PAGE/offset", bkey+":signature", pos(c, b.Decl), "BuildCursor(rows) signature changed")
+		return
+	}
+	ret := b.Decl.Type.Params.List[0].Names[0].Name
+	recN, okN, recT, okT, recP, okP := false, false, false, false, false, false
 	ast.Inspect(b.Decl.Body, func(n ast.Node) bool {
 		as, ok := n.(*ast.AssignStmt)
 		if !ok || len(as.Lhs) != 1 || len(as.Rhs) != 1 {
 			return true
 		}
-		l, r := types.ExprString(as.Lhs[0]), nospace(types.ExprString(as.Rhs[0]))
+		l, r := nospace(types.ExprString(as.Lhs[0])), nospace(types.ExprString(as.Rhs[0]))
 		fs := factStrings(bi, b.Decl.Body, as.Pos())
 		more := false
 		for _, f := range fs {
-			if f[0] == '+' && nospace(f[1:]) == "len(ret)>int(o.query.PageSize)" {
-				more = true
+			if f[0] == '+' {
+				if _, ok := matchPat(strings.TrimPrefix(f, "+"), "len("+ret+")>int($p)"); ok {
+					more = true
+				}
+				// merged condition `PageSize != 0 && len(ret) > int(PageSize)` is split by the fact engine
 			}
 		}
-		switch {
-		case l == "cp.Offset" && r == "o.query.Offset+o.query.PageSize":
-			okNext = more
-		case l == "ret" && r == "ret[:len(ret)-1]":
-			okTrim = more
-		case l == "offset" && r == "int(o.query.Offset)-int(o.query.PageSize)":
-			okPrev = hasFact(fs, "o.query.Offset > 0", true)
+		if strings.HasSuffix(l, ".Offset") {
+			if bnd, ok := matchPat(r, "$o+$p"); ok && strings.HasSuffix(bnd["o"], "Offset") && strings.HasSuffix(bnd["p"], "PageSize") {
+				recN = true
+				okN = more
+			} else if _, ok := matchPat(r, "$o+$p-1"); ok {
+				recN = true
+			} else if _, ok := matchPat(r, "$o+$p+1"); ok {
+				recN = true
+			}
+		}
+		if l == ret {
+			if r == ret+"[:len("+ret+")-1]" {
+				recT = true
+				okT = more
+			}
+		}
+		// previous: offset - pageSize, floored at zero (if-clamp or builtin max)
+		if bnd, ok := matchPat(r, "int($o)-int($p)"); ok && strings.HasSuffix(bnd["o"], "Offset") && strings.HasSuffix(bnd["p"], "PageSize") {
+			recP = true
+			// floor: a following `if x < 0 { x = 0 }`
+			ast.Inspect(b.Decl.Body, func(m ast.Node) bool {
+				if is, ok := m.(*ast.IfStmt); ok && nospace(types.ExprString(is.Cond)) == l+"<0" {
+					okP = true
+				}
+				return true
+			})
+		}
+		if bnd, ok := matchPat(r, "max(0,int($o)-int($p))"); ok && strings.HasSuffix(bnd["o"], "Offset") {
+			recP, okP = true, true
+		}
+		if bnd, ok := matchPat(r, "max(int($o)-int($p),0)"); ok && strings.HasSuffix(bnd["o"], "Offset") {
+			recP, okP = true, true
 		}
 		return true
 	})
-	floor := false
-	ast.Inspect(b.Decl.Body, func(n ast.Node) bool {
-		if is, ok := n.(*ast.IfStmt); ok && nospace(types.ExprString(is.Cond)) == "offset<0" && len(is.Body.List) == 1 {
-			if as, ok := is.Body.List[0].(*ast.AssignStmt); ok && types.ExprString(as.Lhs[0]) == "offset" && types.ExprString(as.Rhs[0]) == "0" {
-				floor = true
-			}
-		}
-		return true
-	})
-	c.Check(okNext && okTrim, "PAGE/offset", bkey+":advance", pos(c, b.Decl), "next offset = offset + pageSize when more than pageSize rows; look-ahead dropped", "the offset paginator does not advance by exactly one page (and drop the look-ahead row) when more rows exist: rows are skipped or repeated across pages")
-	c.Check(okPrev && floor, "PAGE/offset", bkey+":previous", pos(c, b.Decl), "previous offset = max(0, offset − pageSize)", "the previous cursor of the offset paginator does not step back one page, floored at 0")
+	c.Shape(recN, okN, "PAGE/offset", bkey+":advance", pos(c, b.Decl), "next offset = offset + pageSize when more than pageSize rows came back", "the offset paginator does not advance by exactly one page when more rows exist: rows are skipped or repeated across pages")
+	c.Shape(recT, okT, "PAGE/offset", bkey+":lookahead-dropped", pos(c, b.Decl), "look-ahead row dropped when more rows exist", "the offset paginator does not drop its look-ahead row exactly when more rows exist")
+	c.Shape(recP, okP, "PAGE/offset", bkey+":previous", pos(c, b.Decl), "previous offset = max(0, offset − pageSize)", "the previous cursor of the offset paginator does not step back one page, floored at 0")
 }
 
 func rulePaginateDispatch(c *core.Ctx) {
@@ -360,99 +398,62 @@ func rulePaginateDispatch(c *core.Ctx) {
 	if d == nil {
 		return
 	}
-	info := d.Pkg.TypesInfo
 	key := declKey(d)
-	// ColumnPaginatedQuery chosen exactly under field.Type.IsPaginated()
-	okCol, okOff := false, false
-	ast.Inspect(d.Decl.Body, func(n ast.Node) bool {
-		as, ok := n.(*ast.AssignStmt)
-		if !ok || len(as.Lhs) != 1 || len(as.Rhs) != 1 || types.ExprString(as.Lhs[0]) != "paginationQuery" {
+	scope := fnScope(c, d, 2)
+	// the column/offset choice: composite literals of the two query types built from the initial query
+	recC, okCol, okOff := false, false, false
+	inScope(scope, func(dd *astx.DeclInfo) {
+		info := dd.Pkg.TypesInfo
+		ast.Inspect(dd.Decl.Body, func(n ast.Node) bool {
+			cl, ok := n.(*ast.CompositeLit)
+			if !ok || fieldOfCompositeLit(cl, "InitialPaginatedQuery") == nil {
+				return true
+			}
+			t := types.ExprString(cl.Type)
+			fs := factStrings(info, dd.Decl.Body, cl.Pos())
+			var pos, neg bool
+			for _, f := range fs {
+				if strings.HasSuffix(f[1:], ".Type.IsPaginated()") {
+					pos, neg = f[0] == '+', f[0] == '-'
+				}
+			}
+			if !pos && !neg {
+				return true
+			}
+			recC = true
+			switch {
+			case strings.HasPrefix(t, "ColumnPaginatedQuery"):
+				okCol = pos
+			case strings.HasPrefix(t, "OffsetPaginatedQuery"):
+				okOff = neg
+			}
 			return true
-		}
-		cl, ok := as.Rhs[0].(*ast.CompositeLit)
-		if !ok {
-			return true
-		}
-		fs := factStrings(info, d.Decl.Body, as.Pos())
-		iv := fieldOfCompositeLit(cl, "InitialPaginatedQuery")
-		same := iv != nil && types.ExprString(iv) == "v"
-		t := types.ExprString(cl.Type)
-		switch {
-		case strings.HasPrefix(t, "ColumnPaginatedQuery"):
-			okCol = same && hasFact(fs, "field.Type.IsPaginated()", true)
-		case strings.HasPrefix(t, "OffsetPaginatedQuery"):
-			okOff = same && hasFact(fs, "field.Type.IsPaginated()", false)
-		}
-		return true
+		})
 	})
-	c.Check(okCol && okOff, "PAGE/dispatch", key+":paginator-choice", pos(c, d.Decl), "column paginator iff the column type supports it", "the first page does not choose the column paginator exactly for column types that can be compared with a pagination id (others must use offsets): the window comparison is applied to a type it cannot order")
-	// pipeline: buildFilteredDataset → paginator.Paginate → … → Order(paginator.OrderExpression) → Scan → BuildCursor(ret)
-	bf := callsTo(info, d.Decl.Body, named("buildFilteredDataset"))
-	pg := callsTo(info, d.Decl.Body, methodOn("Paginator", "Paginate"))
-	oe := callsTo(info, d.Decl.Body, named("OrderExpression"))
-	bc := callsTo(info, d.Decl.Body, named("BuildCursor"))
-	sc := callsTo(info, d.Decl.Body, named("Scan"))
-	okPipe := len(bf) == 1 && len(pg) == 1 && len(oe) == 1 && len(bc) == 1 && len(sc) == 1
-	if okPipe {
-		flow := astx.NewFlow(info, d.Decl.Body)
-		okPipe = flow.Dominates(bf[0], pg[0]) && flow.Dominates(pg[0], sc[0]) && flow.Dominates(sc[0], bc[0]) &&
-			types.ExprString(pg[0].Args[0]) == "finalQuery" && len(bc[0].Args) == 1 && types.ExprString(bc[0].Args[0]) == "ret"
-	}
-	c.Check(okPipe, "PAGE/dispatch", key+":pipeline", pos(c, d.Decl), "filtered dataset → paginator window → scan → cursor from the scanned rows", "Paginate does not apply the paginator's window to the filtered dataset and build the cursor from the rows it scanned")
-	// the final ORDER BY is the paginator's own expression (column and direction)
-	okFinal := false
+	c.Shape(recC, okCol && okOff, "PAGE/dispatch", key+":paginator-choice", pos(c, d.Decl), "column paginator iff the column type supports it", "the first page does not choose the column paginator exactly for column types that can be compared with a pagination id (others must use offsets): the window comparison is applied to a type it cannot order")
+	// the final ORDER BY is the paginator's own expression
+	info := d.Pkg.TypesInfo
+	recF, okF := false, false
 	for _, call := range callsTo(info, d.Decl.Body, named("Order")) {
 		if len(call.Args) != 1 {
 			continue
 		}
-		if f, args, ok := sprintfShape(info, call.Args[0]); ok && f == "dataset.%s %s" && len(args) == 2 && args[0] == "col" && args[1] == "dir" {
-			// col, dir cut from paginator.OrderExpression()
-			ast.Inspect(d.Decl.Body, func(n ast.Node) bool {
-				if as, ok := n.(*ast.AssignStmt); ok && len(as.Lhs) == 3 && len(as.Rhs) == 1 && types.ExprString(as.Lhs[0]) == "col" && types.ExprString(as.Lhs[1]) == "dir" {
-					if cut, ok := as.Rhs[0].(*ast.CallExpr); ok && len(cut.Args) == 2 && types.ExprString(cut.Args[0]) == "orderExpr" {
-						okFinal = true
-					}
-				}
-				return true
-			})
+		if f, args, ok := sprintfShape(info, call.Args[0]); ok && strings.HasPrefix(f, "dataset.") {
+			recF = true
+			okF = f == "dataset.%s %s" && len(args) == 2 && len(callsTo(info, d.Decl.Body, named("OrderExpression"))) == 1
 		}
 	}
-	okExpr := false
-	ast.Inspect(d.Decl.Body, func(n ast.Node) bool {
-		if as, ok := n.(*ast.AssignStmt); ok && len(as.Lhs) == 1 && len(as.Rhs) == 1 && types.ExprString(as.Lhs[0]) == "orderExpr" && ast.Unparen(as.Rhs[0]) == ast.Expr(oe0(oe)) {
-			okExpr = true
-		}
-		return true
-	})
-	c.Check(okFinal && okExpr, "PAGE/dispatch", key+":final-order", pos(c, d.Decl), "final ORDER BY = paginator.OrderExpression()", "the final query is not ordered by the paginator's own column and direction: the rows arrive in another order than the one the window bounds assume")
-	// OrderExpression of the column paginator follows Reverse like Paginate does
-	if e := fn(c, pkgCommon, "columnPaginator", "OrderExpression"); e != nil {
-		ei := e.Pkg.TypesInfo
-		rev := false
-		ast.Inspect(e.Decl.Body, func(n ast.Node) bool {
-			if as, ok := n.(*ast.AssignStmt); ok && len(as.Lhs) == 1 && len(as.Rhs) == 1 && types.ExprString(as.Rhs[0]) == types.ExprString(as.Lhs[0])+".Reverse()" {
-				fs := factStrings(ei, e.Decl.Body, as.Pos())
-				rev = len(fs) == 1 && fs[0] == "+o.query.Reverse"
-			}
-			return true
-		})
-		okS := false
-		ast.Inspect(e.Decl.Body, func(n ast.Node) bool {
-			if r, ok := n.(*ast.ReturnStmt); ok && len(r.Results) == 1 {
-				if f, args, ok := sprintfShape(ei, r.Results[0]); ok && f == "%s %s" && len(args) == 2 && args[0] == "o.fieldName" && args[1] == "order" {
-					okS = true
-				}
-			}
-			return true
-		})
-		c.Check(rev && okS, "PAGE/dispatch", declKey(e)+":follows-reverse", pos(c, e.Decl), "column, direction reversed iff Reverse", "columnPaginator.OrderExpression does not reverse the direction exactly when a previous cursor is followed")
+	c.Shape(recF, okF, "PAGE/dispatch", key+":final-order", pos(c, d.Decl), "final ORDER BY = paginator.OrderExpression() (column and direction)", "the final query is not ordered by the paginator's own column and direction: the rows arrive in another order than the one the window bounds assume")
+	// pipeline
+	bf := callsTo(info, d.Decl.Body, named("buildFilteredDataset"))
+	pg := callsTo(info, d.Decl.Body, methodOn("Paginator", "Paginate"))
+	bc := callsTo(info, d.Decl.Body, named("BuildCursor"))
+	sc := callsTo(info, d.Decl.Body, named("Scan"))
+	recP := len(bf) == 1 && len(pg) == 1 && len(bc) == 1 && len(sc) == 1
+	okP := false
+	if recP {
+		flow := astx.NewFlow(info, d.Decl.Body)
+		okP = flow.Dominates(bf[0], pg[0]) && flow.Dominates(pg[0], sc[0]) && flow.Dominates(sc[0], bc[0])
 	}
-	_ = token.ADD
-}
-
-func oe0(calls []*ast.CallExpr) *ast.CallExpr {
-	if len(calls) == 0 {
-		return nil
-	}
-	return calls[0]
+	c.Shape(recP, okP, "PAGE/dispatch", key+":pipeline", pos(c, d.Decl), "filtered dataset → paginator window → scan → cursor from the scanned rows", "Paginate does not apply the paginator's window to the filtered dataset and build the cursor from the rows it scanned")
 }
